@@ -125,7 +125,7 @@ func (n *Node) Write(db string, shardID int, pts []rows.Point) error {
 type Layout struct {
 	Leaves       [][]int // partition of shard ids over leaf nodes
 	Intermediate bool    // route through one intermediate (broker) node
-	Order        func(n int) int // picks the next pending response to deliver among n (nil = first)
+	Delay        func() time.Duration // transit time of the next response (nil = none)
 }
 
 type fakeTaskMgr struct {
@@ -196,7 +196,7 @@ func (n *Node) Query(db, sqlText string, lay Layout) (*commonmodels.ResultSet, e
 	brokerNode := models.StatelessNode{HostIP: "1.1.1.2", GRPCPort: 9000}
 	rootMgr := &fakeTaskMgr{tasks: map[string]querycontext.TaskContext{}}
 	brokerMgr := &fakeTaskMgr{tasks: map[string]querycontext.TaskContext{}}
-	var pending []*pendingResp
+	var deliver func(p *pendingResp)
 	processors := map[string]query.TaskProcessor{}
 	var leafTargets []*models.Target
 	for i, shards := range lay.Leaves {
@@ -209,7 +209,7 @@ func (n *Node) Query(db, sqlText string, lay Layout) (*commonmodels.ResultSet, e
 		}{{root.Indicator(), rootMgr}, {brokerNode.Indicator(), brokerMgr}} {
 			recv := recv
 			fct.Register(recv.node, &fakeStream{send: func(r *protoCommonV1.TaskResponse) error {
-				pending = append(pending, &pendingResp{resp: r, from: me, to: recv.mgr})
+				deliver(&pendingResp{resp: r, from: me, to: recv.mgr})
 				return nil
 			}})
 		}
@@ -232,13 +232,14 @@ func (n *Node) Query(db, sqlText string, lay Layout) (*commonmodels.ResultSet, e
 		tc := flow.NewTaskContextWithTimeout(context.Background(), time.Minute)
 		if target == brokerNode.Indicator() {
 			ip := query.NewIntermediateTaskProcessor(brokerNode, time.Minute, leafChooser, brokerMgr, transport)
+			sim.Probe("intermediate-node-used")
 			sim.Spawn("intermediate", func() {
 				stream := &fakeStream{send: func(r *protoCommonV1.TaskResponse) error {
-					pending = append(pending, &pendingResp{resp: r, from: brokerNode.Indicator(), to: rootMgr})
+					deliver(&pendingResp{resp: r, from: brokerNode.Indicator(), to: rootMgr})
 					return nil
 				}}
 				if err := ip.Process(tc, stream, req); err != nil {
-					pending = append(pending, &pendingResp{resp: &protoCommonV1.TaskResponse{RequestID: req.RequestID, Completed: true, ErrMsg: err.Error()}, from: brokerNode.Indicator(), to: rootMgr})
+					deliver(&pendingResp{resp: &protoCommonV1.TaskResponse{RequestID: req.RequestID, Completed: true, ErrMsg: err.Error()}, from: brokerNode.Indicator(), to: rootMgr})
 				}
 			})
 			return nil
@@ -254,7 +255,7 @@ func (n *Node) Query(db, sqlText string, lay Layout) (*commonmodels.ResultSet, e
 		sim.Spawn("leaf", func() {
 			// as TaskHandler.process: an error of Process is answered on the request stream
 			if err := p.Process(tc, nil, req); err != nil {
-				pending = append(pending, &pendingResp{resp: &protoCommonV1.TaskResponse{RequestID: req.RequestID, RequestType: req.RequestType, Completed: true, ErrMsg: err.Error()}, from: target, to: to})
+				deliver(&pendingResp{resp: &protoCommonV1.TaskResponse{RequestID: req.RequestID, RequestType: req.RequestType, Completed: true, ErrMsg: err.Error()}, from: target, to: to})
 			}
 		})
 		return nil
@@ -265,24 +266,26 @@ func (n *Node) Query(db, sqlText string, lay Layout) (*commonmodels.ResultSet, e
 			return []*models.PhysicalPlan{{Database: database, Targets: []*models.Target{{Indicator: brokerNode.Indicator()}}}}, nil
 		}}
 	}
-	// delivery task: simulated time only advances when every task is blocked, so after a 1 ms sleep every
-	// node that could answer has answered; the collected responses are then delivered in the chosen order
+	// delivery: every response travels in its own task, which sleeps a tape-chosen time and then hands the
+	// response to the receiver: arrival order and the interleaving of arrivals with nodes that are still
+	// working are decisions of the tape and the scheduler
 	stop := false
-	sim.Spawn("deliver", func() {
-		for !stop {
-			simrt.Sleep(time.Millisecond)
-			for len(pending) > 0 && !stop {
-				i := 0
-				if lay.Order != nil && len(pending) > 1 {
-					i = lay.Order(len(pending)) % len(pending)
-				}
-				p := pending[i]
-				pending = append(pending[:i], pending[i+1:]...)
-				sim.Event("deliver response from %s err=%q", p.from, p.resp.ErrMsg)
-				_ = p.to.Receive(p.resp, p.from)
-			}
+	deliver = func(p *pendingResp) {
+		d := time.Duration(0)
+		if lay.Delay != nil {
+			d = lay.Delay()
 		}
-	})
+		sim.Spawn("deliver", func() {
+			if d > 0 {
+				simrt.Sleep(d)
+			}
+			if stop {
+				return
+			}
+			sim.Event("deliver response from %s err=%q", p.from, p.resp.ErrMsg)
+			_ = p.to.Receive(p.resp, p.from)
+		})
+	}
 	defer func() { stop = true }()
 	ctx, cancel := context.WithTimeout(context.Background(), 30*time.Second)
 	defer cancel()
